@@ -19,6 +19,11 @@ def main(argv=None):
     r.add_argument("--no-evidence", action="store_true")
     p = sub.add_parser("replay")
     p.add_argument("path")
+    sub.add_parser("setup")
+    sh = sub.add_parser("show")
+    sh.add_argument("prop")
+    sh.add_argument("index", type=int)
+    sh.add_argument("--tier", default="quick")
     s = sub.add_parser("selftest")
     s.add_argument("--seeds", type=int, default=200)
     s.add_argument("--props", default="")
@@ -36,6 +41,32 @@ def main(argv=None):
             return 1
         if res["status"] == "harness":
             return 2
+        return 0
+    if args.cmd == "show":
+        import json
+        from vf import runner, simrun_quiet
+        mod = runner.load_module(args.prop)
+        sd = common.derive_seed(seed, args.prop, args.index)
+        case = mod.generate(sd, args.tier, args.index)
+        print(json.dumps(case))
+        so = sys.stdout
+        simrun_quiet.quiet()
+        if hasattr(mod, "init_worker"):
+            mod.init_worker()
+        res = mod.execute(case)
+        sys.stdout = so
+        res.pop("final_case", None)
+        print(json.dumps(res, default=str, indent=1)[:3000])
+        return 0
+    if args.cmd == "setup":
+        from vf import common as c
+        src = c.use_repo()
+        import pydsol.core.simulator as m
+        for d in ("evidence", "replays"):
+            os.makedirs(os.path.join(c.VERIF_DIR, d), exist_ok=True)
+        print("setup ok: python %s, pydsol from %s (tree %s)"
+              % (sys.version.split()[0], os.path.dirname(m.__file__),
+                 c.tree_fingerprint()[:12]))
         return 0
     if args.cmd == "selftest":
         from vf import selftest
